@@ -490,6 +490,15 @@ pub fn gen(r: &mut Rng, cases: usize, size: usize, extra: &[String], out: &mut O
                 out.line(&format!("ngch native Script:{} twoval", r.below(1 << 30)));
                 out.line("adump native");
             }
+            "deep" => {
+                let mode = ["naive", "hybrid", "biodivine"][r.usize(3)];
+                out.line(&format!("clideep neg {} {mode}", r.range(50, 400)));
+                out.line(&format!("clideep and {} {mode}", r.range(50, 300)));
+                if case == 0 {
+                    out.line("clideep neg 100000 naive");
+                    out.line("clideep and 100000 biodivine");
+                }
+            }
             "wideund" => {
                 for p in ["native", "hybrid", "bio"] {
                     out.line(&format!("build {p}"));
@@ -561,6 +570,11 @@ pub fn gen(r: &mut Rng, cases: usize, size: usize, extra: &[String], out: &mut O
                     out.line(&format!("cliexport {}", r.below(1 << 30)));
                 }
                 if case == 0 {
+                    // nesting depth: moderate depth must work, the recorded finding D12 is probed
+                    out.line("clideep neg 400 naive");
+                    out.line("clideep and 300 hybrid");
+                    out.line("clideep neg 100000 naive");
+                    out.line("clideep and 100000 biodivine");
                     // probe of the recorded finding D6 (quoted label with a character biodivine rejects)
                     out.line("cliq hybrid");
                     out.line("cliq biodivine");
@@ -917,6 +931,24 @@ impl Exec {
                 let _ = std::fs::write(&file, "s(\"a&b\").s(c).ac(\"a&b\",c(v)).ac(c,\"a&b\").");
                 let (code, stdout) = run_cli(&["--lib", ws[1], "--grd", file.to_str().unwrap_or("")]);
                 out.line(&format!("~ exit={code} {}", stdout.trim_end().replace(' ', "_")));
+                true
+            }
+            "clideep" if ws.len() == 4 => {
+                // a condition nested `depth` levels deep, through the real binary (a stack overflow
+                // aborts the process, so this cannot run inside the harness)
+                out.line(l);
+                out.flush();
+                let depth: usize = ws[2].parse().unwrap_or(0);
+                let text = match ws[1] {
+                    "neg" => format!("s(a).ac(a,{}a{}).", "neg(".repeat(depth), ")".repeat(depth)),
+                    _ => format!("s(a).s(b).ac(b,c(v)).ac(a,{}a{}).", "and(b,".repeat(depth), ")".repeat(depth)),
+                };
+                let file = tmp_file("deep.adf");
+                let _ = std::fs::write(&file, text);
+                let (code, stdout) = run_cli(&["--lib", ws[3], "--grd", file.to_str().unwrap_or("")]);
+                let _ = std::fs::remove_file(&file);
+                out.line(&format!("~ exit={code} {}", stdout.trim_end().replace(' ', "_")));
+                out.line(&format!("# case adf deep={depth} shape={}", ws[1]));
                 true
             }
             "present" if ws.len() == 5 => {
